@@ -29,9 +29,8 @@ theorem lenSat_minJ (v : Json) (n : Nat) (j : Json) (h : lenSat (fun b x => x.le
   cases v <;> try (simp [lenSat])
   rename_i m
   simp only [minJ] at h
-  by_cases hlt : m.lt (Num.ofNat n) = true
-  · simp only [hlt, if_true] at h; exact h
-  · simp only [hlt, Bool.false_eq_true, if_false] at h
+  by_cases hlt : (Num.ofNat n).lt m = true
+  · simp only [hlt, if_true] at h
     simp only [lenSat] at h ⊢
     cases hs : sizeOf? j with
     | none => simp
@@ -41,6 +40,7 @@ theorem lenSat_minJ (v : Json) (n : Nat) (j : Json) (h : lenSat (fun b x => x.le
       have hpos : (0 : Int) ≤ 10 ^ m.exp := Int.le_of_lt (Int.pow_pos (by decide))
       have h1 : (len : Int) * 10 ^ m.exp ≤ (n : Int) * 10 ^ m.exp := Int.mul_le_mul_of_nonneg_right h hpos
       omega
+  · simp only [hlt, Bool.false_eq_true, if_false] at h; exact h
 
 theorem capLength_sat (R : Rx) (cons : Cons) (n : Nat) (j : Json) (h : ∀ c ∈ capLength cons n, sat R c j = true) :
     ∀ c ∈ cons, sat R c j = true := by
